@@ -223,12 +223,24 @@ int32 psDiffMsecs(psTime_t then, psTime_t now, void *userPtr)
         /* borrow 1 second worth of nsec */
         now.psTimeInternal.tv_nsec += 1000000000L;
         }
-        return (int32) ((now.psTimeInternal.tv_sec -
-                then.psTimeInternal.tv_sec) *
-                1000) +
-               ((now.psTimeInternal.tv_nsec -
-                 then.psTimeInternal.tv_nsec) /
-                1000000);
+        {
+            /* Compute in 64 bits and saturate: a difference of more than
+               ~24.8 days used to wrap to a negative (or small) value, which
+               made "older than N ms" tests false for very old time stamps */
+            int64_t d = ((int64_t) now.psTimeInternal.tv_sec -
+                    (int64_t) then.psTimeInternal.tv_sec) * 1000 +
+                ((now.psTimeInternal.tv_nsec -
+                  then.psTimeInternal.tv_nsec) / 1000000);
+            if (d > 0x7fffffffLL)
+            {
+                return 0x7fffffff;
+            }
+            if (d < -0x7fffffffLL)
+            {
+                return -0x7fffffff;
+            }
+            return (int32) d;
+        }
     }
 
     int64_t psDiffUsecs(psTime_t then, psTime_t now)
